@@ -17,6 +17,7 @@ package main
 
 import (
 	"fmt"
+	"go/constant"
 	"go/token"
 	"go/types"
 
@@ -329,13 +330,15 @@ type rstate struct {
 	rotated          bool
 	grownOK          bool // the buffer was extended exactly when full with head 0: slot classes restart with head₀ = 0
 	grewBy           int64
+	ltN              map[rcls]bool // classes of values known to be < n (the entry value, n not yet changed)
+	geZ              map[rcls]bool // classes of values known to be ≥ 0
 	ret              rival
 	retC             rcls
 	hasRet           bool
 }
 
 func newRState(lzero bool) *rstate {
-	s := &rstate{env: map[ssa.Value]rival{}, cls: map[ssa.Value]rcls{}, fieldOf: map[ssa.Value]*types.Var{}, loadVer: map[ssa.Value]int{}, ub: map[ssa.Value]ssa.Value{}, lzero: lzero}
+	s := &rstate{env: map[ssa.Value]rival{}, cls: map[ssa.Value]rcls{}, fieldOf: map[ssa.Value]*types.Var{}, loadVer: map[ssa.Value]int{}, ub: map[ssa.Value]ssa.Value{}, lzero: lzero, ltN: map[rcls]bool{}, geZ: map[rcls]bool{}}
 	if lzero {
 		s.head, s.n = rexact(rconst(0)), rexact(rconst(0))
 	} else {
@@ -367,6 +370,14 @@ func (s *rstate) clone() *rstate {
 	n.ub = make(map[ssa.Value]ssa.Value, len(s.ub))
 	for k, v := range s.ub {
 		n.ub[k] = v
+	}
+	n.ltN = make(map[rcls]bool, len(s.ltN))
+	for k, v := range s.ltN {
+		n.ltN[k] = v
+	}
+	n.geZ = make(map[rcls]bool, len(s.geZ))
+	for k, v := range s.geZ {
+		n.geZ[k] = v
 	}
 	return &n
 }
@@ -458,7 +469,18 @@ func (ra *ringAbs) valOf(s *rstate, v ssa.Value) rival {
 	if k, ok := constInt(v); ok {
 		return rexact(rconst(k))
 	}
+	if c, ok := v.(*ssa.Const); ok && c.Value != nil && c.Value.Kind() == constant.Bool {
+		if constant.BoolVal(c.Value) {
+			return rexact(rconst(1))
+		}
+		return rexact(rconst(0))
+	}
 	return rTop
+}
+
+func isBoolVal(v ssa.Value) bool {
+	b, ok := v.Type().Underlying().(*types.Basic)
+	return ok && b.Info()&types.IsBoolean != 0
 }
 
 // clsOf: residue class of v in state s (loads, φs, parameters and call
@@ -1213,6 +1235,16 @@ func (ra *ringAbs) joinState(a, b *rstate, widen bool, at *ssa.BasicBlock) (*rst
 			delete(r.ub, k)
 		}
 	}
+	for k := range r.ltN {
+		if !b.ltN[k] {
+			delete(r.ltN, k)
+		}
+	}
+	for k := range r.geZ {
+		if !b.geZ[k] {
+			delete(r.geZ, k)
+		}
+	}
 	mx := func(x *int, y int) {
 		if y > *x {
 			*x = y
@@ -1271,8 +1303,17 @@ func (ra *ringAbs) applyEdge(o *rstate, qv ssa.Value, iff *ssa.If, i int) bool {
 		}
 		return true
 	}
+	if _, isCmp := cond.(*ssa.BinOp); !isCmp && isBoolVal(cond) {
+		// a boolean value known exactly (a constant handed to a helper)
+		if bv := ra.valOf(o, cond); bv != rTop && ctx.same(bv, rexact(bv.lo)) && bv.lo.inf == 0 {
+			if (bv.lo.b != 0) != truth {
+				return false
+			}
+		}
+		return true
+	}
 	cm, okc := edgeCmp(iff, i)
-	if !okc || !isIntVal(cm.X) {
+	if !okc || !(isIntVal(cm.X) || isBoolVal(cm.X)) {
 		return true
 	}
 	X, Y := ra.valOf(o, cm.X), ra.valOf(o, cm.Y)
@@ -1285,6 +1326,26 @@ func (ra *ringAbs) applyEdge(o *rstate, qv ssa.Value, iff *ssa.If, i int) bool {
 	}
 	ra.setRefined(o, cm.X, X, 0)
 	ra.setRefined(o, cm.Y, Y, 0)
+	// relational facts the intervals cannot hold: v < n (entry value of the count), v ≥ 0
+	isEntryN := func(v ssa.Value) bool {
+		f := o.fieldOf[v]
+		return f != nil && sameField(f, ra.m.nF) && o.loadVer[v] == 0 && o.nver == 0
+	}
+	switch {
+	case isEntryN(cm.Y) && cm.Op == token.LSS:
+		if c := ra.clsOf(o, cm.X, 0); c.ok {
+			o.ltN[c] = true
+		}
+	case isEntryN(cm.X) && cm.Op == token.GTR:
+		if c := ra.clsOf(o, cm.Y, 0); c.ok {
+			o.ltN[c] = true
+		}
+	}
+	if k, ok := constInt(cm.Y); ok && ((cm.Op == token.GEQ && k >= 0) || (cm.Op == token.GTR && k >= -1)) {
+		if c := ra.clsOf(o, cm.X, 0); c.ok {
+			o.geZ[c] = true
+		}
+	}
 	if ctx.empty(o.head) || ctx.empty(o.n) {
 		return false
 	}
@@ -1325,6 +1386,7 @@ func (ra *ringAbs) checkSlot(name string, s *rstate, x *ssa.IndexAddr) {
 		ra.problem(key, x.Pos(), "which slot of the ring this index denotes (relative to head and n at entry of %s) could not be determined", sp.name)
 		return
 	}
+	ra.checkLive(name, s, x, c)
 	switch {
 	case sp.index != nil:
 		if !ra.clsEq(s, c, *sp.index) {
@@ -1522,6 +1584,11 @@ func (ra *ringAbs) step(fn *ssa.Function, qv ssa.Value, s *rstate, ins ssa.Instr
 		for i, p := range cal.Params {
 			if i < len(x.Call.Args) && isIntVal(p) {
 				sub.env[p], sub.cls[p] = ra.valOf(s, x.Call.Args[i]), ra.clsOf(s, x.Call.Args[i], 0)
+			}
+			if i < len(x.Call.Args) && isBoolVal(p) {
+				if bv := ra.valOf(s, x.Call.Args[i]); bv != rTop {
+					sub.env[p] = bv
+				}
 			}
 		}
 		results := ra.run(cal, cal.Params[qi], sub, false)
@@ -1928,4 +1995,50 @@ func (ra *ringAbs) phiEdgeClass(o *rstate, ph *ssa.Phi, j int) rcls {
 		}
 	}
 	return c
+}
+
+// checkLive: an element that is READ must lie in the live window head₀ … head₀+n₀−1.
+func (ra *ringAbs) checkLive(name string, s *rstate, x *ssa.IndexAddr, c rcls) {
+	read := false
+	for _, r := range referrersOf(x) {
+		if st, ok := r.(*ssa.Store); ok && st.Addr == ssa.Value(x) {
+			continue
+		}
+		read = true
+	}
+	if !read || s.nver != 0 && s.grownOK {
+		return
+	}
+	ctx := rctx{s.lzero}
+	key := fmt.Sprintf("%s:live q.vs[%s]", name, ksym(x.Index))
+	o := c.add(rcls{ok: true, h: 1}, -1) // offset from the head
+	if !o.ok || o.h != 0 {
+		return
+	}
+	// N's lower bound on this path (n may have been decremented already: the entry value counts)
+	nLo := s.Niv.lo
+	atLeast := func(k int64) bool { return ctx.leq(rconst(k), nLo) }
+	switch {
+	case o.r == nil && o.n == 0: // constant offset k
+		ra.site(key, x.Pos())
+		if o.k < 0 || !atLeast(o.k+1) {
+			ra.problem(key, x.Pos(), "the element at offset %d from the head is read while the queue may hold fewer than %d elements (n₀ ∈ %s): a stale slot is returned as if it were an element", o.k, o.k+1, s.Niv)
+		}
+	case o.r == nil && o.n == 1: // n₀ + k
+		ra.site(key, x.Pos())
+		if o.k >= 0 || !atLeast(-o.k) {
+			ra.problem(key, x.Pos(), "the element at offset n₀%+d from the head is read, outside the live window 0 … n₀−1 (n₀ ∈ %s)", o.k, s.Niv)
+		}
+	case o.r != nil:
+		if _, isParam := o.r.(*ssa.Parameter); !isParam {
+			return // a loop position: the number of iterations is not decided here
+		}
+		ra.site(key, x.Pos())
+		lo := ra.valOf(s, o.r).lo
+		nonneg := s.geZ[o] || (o.n == 0 && o.rc == 1 && o.k == 0 && ctx.leq(rconst(0), lo))
+		below := s.ltN[o] || (o.n == 1 && o.rc == 1 && o.k == 0 && ctx.leq(ra.valOf(s, o.r).hi, rconst(-1)))
+		if !nonneg || !below {
+			ra.problem(key, x.Pos(), "the element at offset %s from the head is read without that offset being known to lie in 0 … n₀−1: a slot outside the live window is returned as if it were an element", o)
+		}
+	}
 }
